@@ -248,6 +248,9 @@ func (e *Engine) eval(env *Env, x Expr) (TV, error) {
 	case *ECall:
 		return e.evalCall(env, n)
 	case *EQuant:
+		if len(n.Pats) > 0 && s.quant == 0 {
+			e.freezeHeapsForPatterns(env)
+		}
 		s.quant++
 		defer func() { s.quant-- }()
 		ce := env.child()
@@ -298,6 +301,10 @@ func (e *Engine) eval(env *Env, x Expr) (TV, error) {
 					ts = append(ts, pt.S)
 				}
 				ps = append(ps, ":pattern ("+strings.Join(ts, " ")+")")
+				// z3 matches (+ a q) syntactically and may have normalised the ground term to (+ q a): offer both
+				if sw := swapPlusInPatterns(ts); sw != nil {
+					ps = append(ps, ":pattern ("+strings.Join(sw, " ")+")")
+				}
 			}
 			return TV{Term{fmt.Sprintf("(%s (%s) (! %s %s))", q, strings.Join(decls, " "), body.S, strings.Join(ps, " ")), SBool}, types.Typ[types.Bool]}, nil
 		}
